@@ -82,3 +82,69 @@ Theorem C02_forward_exact_on_span_daun2 : forall (n : nat) (c : nat -> R) (i : Z
   Abel (span_daun2 c n) (zc n) (IZR i) = sumn n (fun j => c j * daun_p2 (Z.of_nat j) i).
 Proof. exact forward_exact_on_span_daun2. Qed.
 Print Assumptions C02_forward_exact_on_span_daun2.
+
+(* ---- stretch 2: quantitative convergence of the daun forward operators, for
+   EVERY size n (proofs/Convergence.v on top of exact-on-span) -----------------
+   These replace "swept" by "proved" for the convergence part of the envelope
+   clause of daun degree 0 and degree 1 (forward): the operator the theorems
+   speak about is the generated matrix daun_p<d> (regenerated from abel/daun.py
+   on every run; its entries are tied to get_bs_cached by the C09 check).
+     lipschitz_nonneg f L :  |f r - f s| <= L |r - s| for r, s >= 0
+     lipschitz_all df L2  :  the same for all reals (df = f')
+     ylos x Rm = sqrt(Rm^2 - x^2) (half chord; 0 if x >= Rm)
+   Pixel units: grid zc j = j, image radius zc n = n.  The *_phys theorems are the
+   same statements for pixel size h (dr = h multiplies the matrix, daun.py:148-150),
+   R = n h:   |result_i - Abel fp R r_i| <= Lp * R * h          (degree 0)
+              |result_i - Abel fp R r_i| <= L2p/2 * R * h^2      (degree 1).
+   The fitted laws of tools/oracle/envelopes.json are tighter than these bounds
+   (they stay swept); the literal monotone-refinement clause also stays swept —
+   what is proved is that the error tends to 0 at the stated rate. *)
+From PA Require Import proofs.Convergence.
+
+Theorem C02_forward_daun0_error : forall (n : nat) (f : R -> R) (L eps : R) (i : Z),
+  0 <= L -> 0 <= eps -> lipschitz_nonneg f L ->
+  (forall s, zc n - 1 / 2 <= s -> Rabs (f s) <= eps) -> (0 <= i)%Z ->
+  Rabs (sumn n (fun j => f (zc j) * daun_p0 (Z.of_nat j) i) - Abel f (zc n) (IZR i))
+    <= (L + 2 * eps) * PA.model.Abel.ylos (IZR i) (zc n).
+Proof. exact forward_daun0_error. Qed.
+Print Assumptions C02_forward_daun0_error.
+
+Theorem C02_forward_daun0_lipschitz : forall (n : nat) (f : R -> R) (L : R) (i : Z),
+  0 <= L -> lipschitz_nonneg f L -> (forall s, zc n - 1 / 2 <= s -> f s = 0) -> (0 <= i)%Z ->
+  Rabs (sumn n (fun j => f (zc j) * daun_p0 (Z.of_nat j) i) - Abel f (zc n) (IZR i)) <= L * zc n.
+Proof. exact forward_daun0_lipschitz. Qed.
+Print Assumptions C02_forward_daun0_lipschitz.
+
+Theorem C02_forward_daun0_phys : forall (n : nat) (fp : R -> R) (Lp h : R) (i : Z),
+  0 < h -> 0 <= Lp -> lipschitz_nonneg fp Lp ->
+  (forall s, (zc n - 1 / 2) * h <= s -> fp s = 0) -> (0 <= i)%Z ->
+  Rabs (h * sumn n (fun j => fp (zc j * h) * daun_p0 (Z.of_nat j) i) - Abel fp (zc n * h) (IZR i * h))
+    <= Lp * (zc n * h) * h.
+Proof. exact forward_daun0_phys. Qed.
+Print Assumptions C02_forward_daun0_phys.
+
+Theorem C02_forward_daun1_error : forall (n : nat) (f df : R -> R) (L2 : R) (i : Z),
+  0 <= L2 -> (forall t, is_derive f t (df t)) -> lipschitz_all df L2 ->
+  (forall s, zc n - 1 <= s -> f s = 0) -> (0 <= i)%Z ->
+  Rabs (sumn n (fun j => f (zc j) * daun_p1 (Z.of_nat j) i) - Abel f (zc n) (IZR i))
+    <= L2 / 2 * PA.model.Abel.ylos (IZR i) (zc n).
+Proof. exact forward_daun1_error. Qed.
+Print Assumptions C02_forward_daun1_error.
+
+Theorem C02_forward_daun1_phys : forall (n : nat) (fp dfp : R -> R) (L2p h : R) (i : Z),
+  0 < h -> 0 <= L2p -> (forall t, is_derive fp t (dfp t)) -> lipschitz_all dfp L2p ->
+  (forall s, (zc n - 1) * h <= s -> fp s = 0) -> (0 <= i)%Z ->
+  Rabs (h * sumn n (fun j => fp (zc j * h) * daun_p1 (Z.of_nat j) i) - Abel fp (zc n * h) (IZR i * h))
+    <= L2p / 2 * (zc n * h) * (h * h).
+Proof. exact forward_daun1_phys. Qed.
+Print Assumptions C02_forward_daun1_phys.
+
+(* hypotheses satisfiable: the tent max(0, 1-r) is 1-Lipschitz and vanishes beyond
+   zc 2 - 1/2; the zero profile is the (degenerate) witness for degree 1 — the bumps
+   (1-r^2/R^2)^p, p >= 2, R <= n-1 of the sweep satisfy them with L2 = sup|f''|. *)
+Example C02_daun0_hypotheses_satisfiable :
+  lipschitz_nonneg tent 1 /\ (forall s, zc 2 - 1 / 2 <= s -> tent s = 0).
+Proof. exact (conj tent_lipschitz tent_support). Qed.
+Example C02_daun1_hypotheses_satisfiable :
+  (forall t : R, is_derive (fun _ : R => 0) t ((fun _ => 0) t)) /\ lipschitz_all (fun _ => 0) 0.
+Proof. exact zero_C2. Qed.
